@@ -176,12 +176,12 @@ def part_archive(res, binary, tier, seed, model_ok, only=None):
             out = C.model("wire", [f"ser {byk[c['k']][0]} | {byk[c['k']][1]}" for c in done], timeout=1800)
             for c, o in zip(done, out):
                 mout[c["k"]] = o.split()
-        # load back with the real input archive: the real bytes (oracle) and, where they differ, the model's bytes
+        # load back with the real input archive: the real bytes (oracle) and the model's bytes (correspondence)
         real_lines, model_lines = [], []
         for c in done:
             real_lines.append(f"{c['k']} {c['shape']} {c['sz']} {byk[c['k']][2]}")
             m = mout.get(c["k"])
-            if m and len(m) == 2 and m[0] != byk[c["k"]][2] and m[0].startswith("x"):
+            if m and len(m) == 2 and m[0].startswith("x"):
                 model_lines.append(f"{c['k']} {c['shape']} {c['sz']} {m[0]}")
         loaded = {}
 
@@ -223,9 +223,9 @@ def part_archive(res, binary, tier, seed, model_ok, only=None):
             if m[0] != hx:
                 res.corr_failures.append({"relation": "Wire.ser == bytes of cereal::YGMOutputArchive", "what": f"bytes differ for type '{ty}' (len real {len(hx)//2} model {len(m[0])//2})",
                                           "case": dict(case, model_bytes=m[0][:300])})
-                g2 = loaded.get(("model", k))
-                if g2 is not None and g2 != ["1", "1"]:
-                    res.corr_failures.append({"relation": "YGMInputArchive reads Wire.ser's bytes back to the value", "what": f"(equal,empty)={g2}", "case": case})
+            g2 = loaded.get(("model", k))
+            if g2 is not None and g2 != ["1", "1"] and (m[0] != hx or got == ["1", "1"]):
+                res.corr_failures.append({"relation": "YGMInputArchive reads Wire.ser's bytes back to the value", "what": f"(equal,empty)={g2}", "case": case})
             if m[1] != "1":
                 res.corr_failures.append({"relation": "Wire.des t (Wire.ser v ++ rest) = (v, rest) on the generated value", "what": "model round trip failed", "case": case})
             if c["shape"] in (23, 33) and c["cls"] == "few":
